@@ -642,3 +642,33 @@ Proof.
     pose proof (zmax0_ge keys y Hy). lia.
   - eapply Permutation_NoDup; [apply ksort_perm | apply (wf_ndT n W0)].
 Qed.
+
+Lemma omap_dget_keys {V} (d : dict V) l : (forall k, In k l -> In k (dkeys d)) ->
+  exists r, omap (fun k => dget k d) l = Some r.
+Proof.
+  induction l as [|k l IH]; intros H; [exists []; reflexivity|]. cbn.
+  destruct (In_key_dget k d (H k (or_introl eq_refl))) as [v ->].
+  destruct (IH (fun k' Hk' => H k' (or_intror Hk'))) as [r ->]. eauto.
+Qed.
+
+Lemma as_einsum_spec_some n : WF n -> exists E, as_einsum_spec n = Some E.
+Proof.
+  intros W. unfold as_einsum_spec. rewrite (sorted_tids_last n W), Z.eqb_refl.
+  destruct (omap_dget_keys (tensors n) (sorted_tids n)) as [tsall Ots].
+  { intros k Hk. eapply Permutation_in; [symmetry; apply ksort_perm | exact Hk]. }
+  unfold bond_order. rewrite Ots. cbn [option_map].
+  set (ol := last (map _ tsall) []).
+  rewrite (omap_total _ (fun i => idx i (first_occ ol []))); [eauto|].
+  intros x Hx. unfold idx. destruct (nindex_Some x (first_occ ol [])) as [p ->]; [|reflexivity].
+  apply first_occ_spec. split; [assumption | intros []].
+Qed.
+
+(** C07 (a), totality: with at least one operand (a tensor or an open axis) contract_einsum answers *)
+Theorem contract_einsum_total {K : Scalar} {L : ScalarLaws K} (n : net) (data : Z -> list nat -> K) :
+  WF n -> real_tensors n <> [] \/ vbids n <> [] -> exists v am, contract_einsum n data = Some (v, am).
+Proof.
+  intros W NE. unfold contract_einsum. rewrite (as_einsum_is_spec n W).
+  destruct (as_einsum_spec_some n W) as [E HE]. rewrite HE.
+  pose proof (as_einsum_spec_total n data W E HE NE) as T.
+  destruct (contract_with E n data) as [[v am]|]; [eauto | congruence].
+Qed.
